@@ -142,6 +142,39 @@ let marker_case id f =
   let el = { el_name = s_of_string "m"; el_attrs = attr_field (s_of_string "name") f.(0) } in
   Printf.printf "%s evalm %s\n" id (if marker_is_removal (split_targets f.(1)) el then "1" else "0")
 
+let opt_hex d f = if f = "~" then d else unhex f
+
+let cli_case id f =
+  let now = z_of_int (int_of_string f.(9)) in
+  let d = default_args now in
+  let src = unhex f.(13) in
+  let s_in = s_of_string "IN" and s_cfg = s_of_string "CFG" and s_out = s_of_string "OUT" in
+  let a = { d with
+    a_filename = (if f.(2) = "F" then Some s_in else None);
+    a_output = (match f.(3) with "W" -> Some s_out | "I" -> Some s_in | _ -> None);
+    a_delimiter_start = opt_hex d.a_delimiter_start f.(4);
+    a_delimiter_end = opt_hex d.a_delimiter_end f.(5);
+    a_time_limited_tag_name = opt_hex d.a_time_limited_tag_name f.(6);
+    a_time_limited_time_offset = opt_hex d.a_time_limited_time_offset f.(7);
+    a_removal_marker_tag_name = opt_hex d.a_removal_marker_tag_name f.(10);
+    a_removal_marker_target_name = split_targets f.(11);
+    a_removal_marker_target_config = (if f.(12) = "~" then None else Some s_cfg);
+    a_list = (f.(0) = "L" || f.(0) = "B");
+    a_list_all = (f.(0) = "A" || f.(0) = "B");
+    a_list_json = (f.(1) = "1") } in
+  let fs name =
+    if name = s_in then Some src
+    else if name = s_cfg && f.(12) <> "~" then Some (unhex f.(12))
+    else None in
+  let stdin = if f.(2) = "S" then Some src else None in
+  match run a stdin fs with
+  | Crash -> Printf.printf "%s cli CRASH\n" id
+  | Exit (code, out, written) ->
+    Printf.printf "%s cli exit=%d stdout=%s file=%s\n" id (int_of_nat code) (hex out)
+      (match written with
+       | None -> "~"
+       | Some (name, c) -> (if name = s_in then "IN" else "OUT") ^ ":" ^ hex c)
+
 let () =
   let ic = open_in Sys.argv.(1) in
   (try
@@ -155,6 +188,7 @@ let () =
          | "F" -> formatter_case f.(1) rest
          | "T" -> time_case f.(1) rest
          | "M" -> marker_case f.(1) rest
+         | "K" -> cli_case f.(1) rest
          | _ -> ()
        end
      done
